@@ -232,6 +232,39 @@ fn move_operand_below_comment(
     }
 }
 
+/// Builds a parenthesised expression out of formatted parentheses and a formatted expression.
+/// A single line comment after the opening parenthesis, or at the end of the expression inside, would comment out what
+/// is printed next: the expression, or the closing parenthesis, is moved onto a new line in that case.
+fn parenthesise(
+    ctx: &Context,
+    contained: ContainedSpan,
+    expression: Expression,
+    shape: Shape,
+) -> Expression {
+    let (start_parens, end_parens) = contained.tokens();
+    let (start_parens, end_parens) = (start_parens.to_owned(), end_parens.to_owned());
+
+    let expression = if start_parens.has_trailing_comments(CommentSearch::Single) {
+        trivia_util::prepend_newline_indent(ctx, &expression, shape.increment_additional_indent())
+    } else {
+        expression
+    };
+
+    let end_parens = if expression.has_trailing_comments(CommentSearch::Single) {
+        end_parens.update_leading_trivia(FormatTriviaType::Append(vec![
+            create_newline_trivia(ctx),
+            create_indent_trivia(ctx, shape),
+        ]))
+    } else {
+        end_parens
+    };
+
+    Expression::Parentheses {
+        contained: ContainedSpan::new(start_parens, end_parens),
+        expression: Box::new(expression),
+    }
+}
+
 /// Collects the comments bound to a pair of parentheses which is being removed, so that they can be appended onto
 /// the expression inside: the ones around the opening parenthesis go in front of it, the ones around the closing
 /// parenthesis go behind it.
@@ -347,10 +380,12 @@ fn format_expression_internal(
                     .update_leading_trivia(FormatTriviaType::Append(leading_comments))
                     .update_trailing_trivia(FormatTriviaType::Append(trailing_comments))
             } else {
-                Expression::Parentheses {
-                    contained: format_contained_span(ctx, contained, shape),
-                    expression: Box::new(format_expression(ctx, expression, shape + 1)), // 1 = opening parentheses
-                }
+                parenthesise(
+                    ctx,
+                    format_contained_span(ctx, contained, shape),
+                    format_expression(ctx, expression, shape + 1), // 1 = opening parentheses
+                    shape,
+                )
             }
         }
         Expression::UnaryOperator { unop, expression } => {
@@ -1453,10 +1488,7 @@ fn format_hanging_expression_(
                     && !lhs_shape.add_width(2 + expression_str.len()).over_budget()
                 {
                     // The expression inside the parentheses is small, we do not need to break it down further
-                    return Expression::Parentheses {
-                        contained,
-                        expression: Box::new(formatted_expression),
-                    };
+                    return parenthesise(ctx, contained, formatted_expression, lhs_shape);
                 }
 
                 // Update the expression shape to be used inside the parentheses, applying the indent increase
